@@ -7,7 +7,7 @@ META = {
     "driver_id": "Edit",
     "coq_targets": ["Props/C20.vo", "Extract/Extract_Edit.vo"],
     "technique": 'Coq invariant / refinement proofs over the executable edit-machine model + step-by-step differential correspondence of the extracted model with the implementation + direct oracle on the implementation',
-    "level_text": 'Proved in Coq for the model (Props/C20.v, closed under the global context): C20_step - for every state and every API call of EditExec.step, a successful top-level user action (add/delete edge, add/delete node, swap predecessors, update attrs, paint) extends the refresh log by exactly one payload (Some n for add-node n, None or Some new_label for a paint stroke, None otherwise), a refused one (any exception code) leaves the log unchanged, undo/redo append one None iff they return True, queries append nothing; C20_run - over any sequence of calls the log is append-only with at most one entry per call; C20_nested_silent - every user-action core and every user action built with _top_level=False leaves the log unchanged in both outcomes. Supporting theorems in Proofs/EditFrame.v: frame lemmas aux_eq (undo/redo stacks, log, id counter, feature flags untouched) for every non-top-level function of the model, top_wrap_ok, finish_top_spec, one_step_history. Tied to the implementation by step-by-step differential execution and a refresh-counter oracle. C20_user_actions_are_generated: the composite user actions (where the refresh is emitted) equal the code translated on every run from user_actions/*.py. C20_core_is_generated: one level further down, the queries, the node-id counter, Tracks.undo / redo and the seven basic actions with their inverses of the model equal the code translated on every run from solution_tracks.py, tracks.py, _track_annotator.py and actions/*.py (Gen/Core_gen.v; statement in Proofs/CoreTieBundle.v).',
+    "level_text": 'Proved in Coq for the model (Props/C20.v, closed under the global context): C20_step - for every state and every API call of EditExec.step, a successful top-level user action (add/delete edge, add/delete node, swap predecessors, update attrs, paint) extends the refresh log by exactly one payload (Some n for add-node n, None or Some new_label for a paint stroke, None otherwise), a refused one (any exception code) leaves the log unchanged, undo/redo append one None iff they return True, queries append nothing; C20_run - over any sequence of calls the log is append-only with at most one entry per call; C20_run_exact - over any sequence of calls the log grows by EXACTLY the number of successful top-level edits plus undo / redo calls that returned True along the session (Proofs/EditRefreshCount.v: successes), nothing for refused edits, exhausted undo / redo and queries; C20_switch_silent - enabling / disabling features, with or without recomputation, emits nothing and leaves both history stacks alone whatever it returns; C20_nested_silent - every user-action core and every user action built with _top_level=False leaves the log unchanged in both outcomes. Supporting theorems in Proofs/EditFrame.v: frame lemmas aux_eq (undo/redo stacks, log, id counter, feature flags untouched) for every non-top-level function of the model, top_wrap_ok, finish_top_spec, one_step_history. Tied to the implementation by step-by-step differential execution and a refresh-counter oracle. C20_user_actions_are_generated: the composite user actions (where the refresh is emitted) equal the code translated on every run from user_actions/*.py. C20_core_is_generated: one level further down, the queries, the node-id counter, Tracks.undo / redo and the seven basic actions with their inverses of the model equal the code translated on every run from solution_tracks.py, tracks.py, _track_annotator.py and actions/*.py (Gen/Core_gen.v; statement in Proofs/CoreTieBundle.v).',
     "level_note": 'Trusted: Coq kernel, extraction (ExtrOcamlBasic only), OCaml driver drv_Edit.ml, Python harness and oracles. Modelled, not verified: networkx DiGraph dict semantics, numpy indexing, skimage regionprops (symbolic: value = function of key, mask, spacing), psygnal. The theorems are about the hand-written model coq/Model/Edit.v; the tie to /repo is the step-by-step differential execution of the extracted model against the implementation on every run. Tied to the source in a second way: the history mechanism (action_history.py) and the seven composite user actions (user_actions/*.py) are re-translated on every run by fail-closed translators (harness/translate_history.py, translate_user_actions.py; closed idiom tables; runtime combinators Model/PyRt.v) and proved equal to the hand-written model for all arguments (Proofs/HistoryTie.v, UserActionsTie.v); trusted there: the idiom tables and combinators, and the stated conventions (get_time / successors on a missing node do not raise, StopIteration reported as KeyError, feature keys never None).',
     "design_ref": "DESIGN.md section 9 (C20)",
     "assumptions": ['the caller does not pass a lineage id to UserAddNode (outside its documented domain)', 'track_id and lineage_id features stay enabled during editing sessions', 'labels/ids are positive; times are frame indices within the array'],
